@@ -206,7 +206,10 @@ Proof.
   { eapply okp_bind; [apply set_cur_ok; [exact Hst|exact Hnext|exact Hs]|]. intros st' Hst'.
     apply final_check_ok; exact Hst'. }
   destruct nosym; [apply ret_partial_ok; assumption|].
-  eapply okp_bind; [apply may_follow_link_ok; assumption|]. intros r _.
+  eapply okp_bind.
+  { instantiate (1 := okR QT). destruct (EMU_PS_ONLY_TRAILING && negb (is_nil rest)); [constructor; exact I|].
+    apply may_follow_link_ok; assumption. }
+  intros r _.
   destruct r as [_u2|e]; [|apply bail_ok; assumption].
   destruct follow as [go|]; [|apply ret_partial_ok; assumption].
   eapply okp_bind; [apply okp_map_err, w_readlinkat_ok; exact Hnext|]. intros r _.
